@@ -34,7 +34,7 @@ NoMore == 0
 (* ---- identities -------------------------------------------------------- *)
 Val(idn, x)       == IF x \in DOMAIN idn THEN idn[x] ELSE <<>>
 Populated(idn, x) == x \in ObjIds /\ Val(idn, x) # <<>>
-PopIds(idn)       == {x \in ObjIds : Populated(idn, x)}
+PopIds(idn)       == {x \in DOMAIN idn : Populated(idn, x)}
 NPop(idn)         == Cardinality(PopIds(idn))
 AllFit(idn)       == \A x \in PopIds(idn) : Len(Val(idn, x)) <= MaxVal
 MaxLen(idn)       == IF PopIds(idn) = {} THEN 0
@@ -58,7 +58,7 @@ Ascending(S) == IF S = {} THEN <<>>
 Obj(idn, x) == [id |-> x, val |-> Val(idn, x)]
 (* the populated objects of the category with id >= from, in ascending id order *)
 StreamFrom(idn, code, from) ==
-  LET ids == Ascending({x \in Category(code) : x >= from /\ Populated(idn, x)})
+  LET ids == Ascending({x \in PopIds(idn) : x \in Category(code) /\ x >= from})
   IN [k \in 1..Len(ids) |-> Obj(idn, ids[k])]
 
 (* ---- the property's demand --------------------------------------------- *)
@@ -75,7 +75,7 @@ Expected(idn, code, start) ==
 Offered(idn, x) ==
   Populated(idn, x) /\ (Len(Val(idn, x)) <= MaxVal \/ "OversizeStalls" \in Dev)
 OfferedFrom(idn, code, from) ==
-  LET ids == Ascending({x \in Category(code) : x >= from /\ Offered(idn, x)})
+  LET ids == Ascending({x \in PopIds(idn) : x \in Category(code) /\ x >= from /\ Offered(idn, x)})
   IN [k \in 1..Len(ids) |-> Obj(idn, ids[k])]
 (* stream access: "if the object id does not match any known object the server responds as if object 0 were pointed out" *)
 EffStart(idn, code, oid) == IF oid \in Category(code) /\ Offered(idn, oid) THEN oid ELSE 0
